@@ -97,6 +97,26 @@ fn strict_steps(s: &mut Spec, rng: &mut Rng) {
     }
 }
 
+fn twin_a_command(s: &mut Spec) -> bool {
+    match s {
+        Spec::Alt(xs) => {
+            let at = xs.iter().position(|x| matches!(x, Spec::Cmd(_)));
+            if let Some(at) = at {
+                let mut twin = xs[at].clone();
+                if let Spec::Cmd(c) = &mut twin {
+                    c.opts.footer = Some("footer of the second branch".to_string());
+                }
+                xs.insert(at + 1, twin);
+                return true;
+            }
+            xs.iter_mut().any(twin_a_command)
+        }
+        Spec::Seq(xs) | Spec::Adj(xs) => xs.iter_mut().any(twin_a_command),
+        Spec::Wrap { inner, .. } => twin_a_command(inner),
+        _ => false,
+    }
+}
+
 pub fn corpus_case(seed: u64, case: u64) -> (OptSpec, Vec<Vec<Vec<u8>>>) {
     let mut rng = Rng::for_case(seed, "C20", case, 0);
     let mut spec = {
@@ -110,6 +130,11 @@ pub fn corpus_case(seed: u64, case: u64) -> (OptSpec, Vec<Vec<Vec<u8>>>) {
         spec
     };
     decorate(&mut spec.root, &mut rng);
+    if rng.chance(1, 6) {
+        // the same command reachable from two branches, with one difference that only the
+        // documentation generators look at (its footer)
+        twin_a_command(&mut spec.root);
+    }
     if rng.chance(1, 2) {
         strict_steps(&mut spec.root, &mut rng);
     }
